@@ -24,8 +24,8 @@ def units(tier):
     ]
     if not q:
         entries += [E("vp_main_view_s12", "ArrayView<struct> histories"),
-                    E("vp_main_owned_u8", "OwnedArray<uint8_t> histories"),
-                    E("vp_main_owned_s12", "OwnedArray<struct> histories")]
+                    E("vp_main_owned_u8", "OwnedArray<uint8_t> histories")]
+        # OwnedArray<12-byte struct> histories at these bounds give no verdict within 1500 s (and the witness twin is cut off by the unwinding bound): not claimed
     return [CbmcUnit("arrays", "harness/C11_arrays.cpp", entries, defines=["NMAX=%d" % nmax, "STEPS=%d" % steps],
                      heap_max=96,
                      assumptions=["allocation never fails (--no-malloc-may-fail)", "element types: uint8_t, int, 12-byte POD struct",
